@@ -211,6 +211,25 @@ pub mod chrono {
                 SimNow::Sim(x) => *x,
             }
         }
+
+        /// Local wall-clock time; noon of the simulated date under simulation.
+        pub fn naive_local(&self) -> ::chrono::NaiveDateTime {
+            match self {
+                SimNow::Real(x) => x.naive_local(),
+                SimNow::Sim(x) => x.and_hms_opt(12, 0, 0).expect("noon exists"),
+            }
+        }
+
+        pub fn naive_utc(&self) -> ::chrono::NaiveDateTime {
+            match self {
+                SimNow::Real(x) => x.naive_utc(),
+                SimNow::Sim(x) => x.and_hms_opt(12, 0, 0).expect("noon exists"),
+            }
+        }
+
+        pub fn timestamp(&self) -> i64 {
+            self.naive_utc().and_utc().timestamp()
+        }
     }
 
     impl Local {
